@@ -18,7 +18,7 @@ from ..common import is_awaited, in_loop, ancestors, resolve_single_assign
 from ..selftest import Seed
 
 META = {
-    "technique": "writer/reader table agreement on the frame layout, exact-read and no-cancellation rule, singleton-pickle rule, dispatch exhaustiveness, await-ordering, effect analysis of the remote handles",
+    "technique": "writer/reader table agreement on the frame layout, exact-read and no-cancellation rule, singleton-pickle rule, dispatch exhaustiveness, await-ordering, effect analysis of the remote handles, who-may-create and unconditional hand-over of the command coroutine to the interpreter loop",
     "level_text": "Static proof of structural necessary conditions of transparent transport: frame layout agreement computed from the struct constants, exact reads that tolerate any fragmentation, no cancellation point inside a frame, identity-preserving pickling of the undefined marker, exhaustive server dispatch, sequential processing. Holds for every fragmentation and message sequence, which mocked streams cannot express; value equality is not decided.",
     "level_note": "decides the structural clause below from source; does not decide the behaviour. Trusted: asyncio.StreamReader.readexactly returns exactly n bytes or raises; uuid.UUID.bytes is 16 bytes; struct semantics; pickle resolves a string __reduce__ as a module global.",
     "explanation": (
@@ -26,7 +26,8 @@ META = {
         "is extracted and compared with the decoder's reads (readexactly(16), readexactly(calcsize(F)), readexactly(len)) and struct.unpack "
         "format; every read in the receive routine is readexactly and every use of the receive routine is a plain await; the sender writes one "
         "concatenated buffer; module-level singletons compared by identity must pickle by reference; client-constructed message classes are a "
-        "subset of the classes the server dispatches on and the dispatch special-cases nothing else; the listener awaits each command."),
+        "subset of the classes the server dispatches on and the dispatch special-cases nothing else; the listener awaits each command."
+        " R4 also requires that the command coroutine is created only by the dispatcher, never awaited on the io loop, and handed unconditionally to the interpreter loop."),
     "assumptions": ["both peers run the same klongpy version (same pickle classes)"],
 }
 
